@@ -9,8 +9,8 @@ Configs that are NOT part of the plan because they show genuine defects of the c
 the specification (InvNoPanic is violated; see the report / known_findings.json):
   mc/MC_RankTree_k2.cfg   swap_random_leaves on a two-vertex graph panics in replace_neighbor
   mc/MC_RankTree_nan.cfg  adaptive cooling on an edgeless graph: best_score = 0, NaN, random_bool panics
-and, for their cost only, mc/MC_RankTree_c5.cfg (exact neighbour order on C5: 855 360 states, 15 min on 8 workers; holds)
-and mc/MC_RankTree_t6.cfg (a 6-vertex graph, order-normalised)."""
+and, for its cost only, mc/MC_RankTree_c5.cfg (exact neighbour order on C5: 855 360 states, 15 min on 8 workers; holds).
+Six vertices are out of reach even order-normalised (> 25 min)."""
 
 W = 8
 MOVES = ("ASwapLeaves", "ALocalSwap", "AMoveSubtree", "AComputeRanks")
